@@ -1,6 +1,7 @@
 package checks
 
 import (
+	"fmt"
 	"regexp"
 	"sort"
 	"strings"
@@ -108,6 +109,40 @@ func (k c03) Run(c *rt.Ctx) {
 	style := gen.Style{Paren: []int{0, 0, 1, 3}[r.Intn(4)], R: r.Fork(), Case: r.Chance(1, 4)}
 	query := stmt.Text(style)
 	sizes := []int{pickBatch(c), pickBatch(c), pickBatch(c)}
+	if r.Chance(1, 10) {
+		// runs: whole chunks on which the left operand of & / | decides every pair, then a
+		// chunk where the right operand (a named field) decides; small batch sizes
+		c.Rec.Inc("run_structured_stores")
+		var ps []refstore.Pair
+		n := r.Range(6, 14)
+		letter := byte('a')
+		for i := 0; i < n; i++ {
+			if r.Chance(1, 3) {
+				letter = "ab"[r.Intn(2)]
+			}
+			ps = append(ps, refstore.Pair{K: fmt.Sprintf("k%02d", i), V: fmt.Sprintf("%c%d", letter, i%4)})
+		}
+		st = &gen.Store{Family: "runs", Pairs: refstore.New(ps).Pairs()}
+		u := gen.Ref("u", gen.Call("upper", gen.Value()))
+		var right *gen.Node
+		switch r.Intn(3) {
+		case 0:
+			right = gen.Bin("=", u, gen.Str(fmt.Sprintf("B%d", r.Intn(4))))
+		case 1:
+			right = gen.Bin("^=", u, gen.Str("B"))
+		default:
+			right = gen.Bin(">", gen.Call("strlen", gen.Bin("+", u, gen.Str("x"))), gen.Int(2))
+		}
+		var w *gen.Node
+		if r.Bool() {
+			w = gen.And(gen.Bin("^=", gen.Value(), gen.Str("b")), right)
+		} else {
+			w = gen.Or(gen.Bin("^=", gen.Value(), gen.Str("a")), right)
+		}
+		stmt = &gen.Stmt{Kind: "select", Where: w, Fields: []gen.Field{{E: gen.Key()}, {E: gen.Call("upper", gen.Value()), Alias: "u"}}}
+		query = stmt.Text(gen.Plain)
+		sizes = []int{1, 2, 3}
+	}
 	hit := k.judge(c, stmt, query, st.Pairs, sizes, "")
 	if hit == "" {
 		return
